@@ -137,7 +137,7 @@ CLAIMS["C13"] = kclaim(
          "{0,1,2,3,1000,2^31,u32::MAX-1,u32::MAX}.")
 CLAIMS["C14"] = kclaim(
     "Verus (arbitrary parts, hence any nesting depth): every operator is specified as a function op(input, stream state) -> (result, stream state); the real apply() bodies of Then, "
-    "And, Map over a pair, Identity, Constant, Mutate, Recombine and the by-reference Mutator / Recombinator impls are proved equal to compositional spec functions written from the "
+    "And, Map over a pair, Identity, Constant, Mutate, Recombine, Select, GenomeExtractor, GenomeScorer and the by-reference Mutator / Recombinator / Selector impls are proved equal to compositional spec functions written from the "
     "property (first result fed to the second; same input to both; elements in order; the first failure stops the pipeline with the stream where the failing part left it; the error "
     "identifies part / element index). Kani: probe operators log (id, input seen, word drawn) and fail on command. For all inputs, all random words and every failure position: Then feeds the first result to the second, "
     "And gives both the same input, Map maps pair/array/Vec elements in order, RepeatWith applies N times to copies — each part draws the next word of the stream, the first failure "
